@@ -248,7 +248,9 @@ StageExit(sg) ==
   /\ UNCHANGED varsB
 Returned == status # "run" /\ live = {}
 \* the shape a hostile peer can produce at will: handler error while the pipeline is full
-FullPipelineOnError == status \in {"parent", "consensus"} /\ Len(warmQ) = WarmCap /\ dec # None /\ rawQ # <<>>
+\* (the handler has taken the refused block off the channel: one slot is free, the decoder fills it and blocks again)
+FullPipelineOnError == /\ status \in {"parent", "consensus"} /\ Len(warmQ) >= WarmCap - 1
+                       /\ dec # None /\ dec.i <= Len(dec.bs) /\ rawQ # <<>>
 
 \* --- invariants of (B) over any peer --------------------------------------------------------------------
 NoInvalidStored == \A s \in store : s.kind = "ok"
